@@ -323,7 +323,7 @@ func (s *Solver) Values(syms []*Term) (map[string]*big.Int, error) {
 		if len(pair.kids) != 2 {
 			continue
 		}
-		name := strings.Trim(pair.kids[0].atom, "|")
+		name := strings.TrimPrefix(strings.Trim(pair.kids[0].atom, "|"), "v.")
 		v := sexpValue(pair.kids[1])
 		if v != nil {
 			res[name] = v
